@@ -49,10 +49,10 @@ def klatt_behaviours(sz, work, res):
     return out
 
 
-def synth_points(rng, nform, npts):
+def synth_points(rng, nform, npts, xmin=0):
     vals = K.VALUE_POOL
     pts = {}
-    times = [0.0, 0.005, 0.25, 1.0 / 3.0, 0.5, 1.1623125, 2.0]
+    times = [t for t in [0.0, 0.005, 0.25, 1.0 / 3.0, 0.5, 1.1623125, 2.0] if t >= xmin]
     def mk():
         ts = sorted(rng.sample(times, npts))
         return [(t, rng.choice(vals)) for t in ts]
@@ -78,7 +78,8 @@ def _klatt_job(job):
             kg = klattgrid.openKlattgrid(os.path.join(common.REPO, "tests", "files", "bobby.KlattGrid"))
         else:
             nform, npts = payload["nform"], payload["npts"]
-            txt = K.synth_klattgrid(nform, synth_points(rng, nform, npts), 2.5, trailing_newline=payload.get("nl", True))
+            xmin = payload.get("xmin", 0)
+            txt = K.synth_klattgrid(nform, synth_points(rng, nform, npts, xmin), 2.5, trailing_newline=payload.get("nl", True), xmin=xmin)
             fn = os.path.join(workdir, "syn-%d-%d.KlattGrid" % (os.getpid(), payload["seed"]))
             with open(fn, "w", encoding="utf-8") as f:
                 f.write(txt)
@@ -166,7 +167,8 @@ def check_c19(prop, tier):
         replayed = hists if len(hists) <= 3000 else rng.sample(hists, 3000)
         for h in replayed:
             seed += 1
-            items.append(("synth", {"seed": seed, "nform": rng.choice([1, 2, 3, 4, 5, 5, 10, 12]), "npts": rng.randint(0, 3), "hist": h, "nl": rng.random() < 0.8}))
+            items.append(("synth", {"seed": seed, "nform": rng.choice([1, 2, 3, 4, 5, 5, 10, 12]), "npts": rng.randint(0, 3), "hist": h, "nl": rng.random() < 0.8,
+                                    "xmin": rng.choice([0, 0, 0, 0.25, 0.125])}))
         for h in rng.sample(hists, min(sz["fixture"], len(hists))):
             seed += 1
             items.append(("fixture", {"seed": seed, "hist": h}))
